@@ -134,6 +134,11 @@ class StmtMixin:
                 raise Unsupported('symbolic index store into concrete list')
             base.items[k] = v
             return
+        if isinstance(base, VBox) and base.kind == 'dict':
+            k = self.zs.lift(self.unwrap(self.ev(t.slice, fr), t), base.term.sort().domain())
+            base.term = z3.Store(base.term, k, True)
+            base.vsort = z3.Store(base.vsort, k, self.zs.lift(v, base.vsort.sort().range()))
+            return
         if isinstance(base, VBox) and base.kind in ('list', 'deque'):
             term = base.term
             n = z3.Length(term)
@@ -375,6 +380,15 @@ class StmtMixin:
         """-> None if concretely iterable, else ('seq'|'zip'|'rev'|'enum', [seq terms])"""
         if isinstance(it, IterView):
             return it
+        if isinstance(it, VBox) and it.kind == 'set' and it.term is not None:
+            # iteration order of a set: an arbitrary permutation, different at every iteration site (hash seed,
+            # insertion history) — anything that depends on it is not a function of the set
+            nonce = self.path.fresh(z3.IntSort(), 'iter_nonce')
+            seqsort = z3.SeqSort(it.term.sort().domain())
+            order = self.ufun('iter_order_' + ''.join(c for c in str(seqsort) if c.isalnum()), it.term.sort(), z3.IntSort(), seqsort)(it.term, nonce)
+            self.iter_info[order.get_id()] = it.term
+            self.assumptions.add('iteration over a set yields an arbitrary order (fresh permutation per iteration site)')
+            return IterView('seq', [order])
         if isinstance(it, VBox) and it.kind in ('list', 'deque') or (z3.is_expr(it) and isinstance(it.sort(), z3.SeqSortRef) and not z3.is_string(it)):
             t = simp(self.seqterm(it))
             if self.seq_concrete_items(t) is not None:
